@@ -129,6 +129,24 @@ func (fr *Frame) callFn(st *State, site ssa.Instruction, fn *ssa.Function, args 
 			v.lastCallQual = fn.Pkg.Pkg.Name() + "." + fn.Name()
 		}
 	}
+	if full == "github.com/consensys/gnark-crypto/internal/parallel.Execute" && len(args) >= 2 {
+		if tc := fr.topContract(); tc != nil && tc.Options["execute-as-range"] != "" {
+			if fv, isF := args[1].(*FuncV); isF && fv.Fn != nil {
+				// "option execute-as-range": parallel.Execute(n, work) is executed as work(0, n). Execute hands work
+				// consecutive ranges that partition 0..n exactly (its own contract, C10); that the iterations of the
+				// closure are independent of one another (no data race, no dependence on the order or the grouping of the
+				// iterations) is assumed, not checked.
+				v.assume("parallel.Execute(n, work) is executed as work(0, n) (option execute-as-range): the partition of 0..n into consecutive ranges is the contract of Execute; the independence of the iterations of the closure (no data race, no dependence on their order or grouping) is assumed")
+				was := v.inlineNames[fv.Fn.Name()]
+				if v.inlineNames == nil {
+					v.inlineNames = map[string]bool{}
+				}
+				v.inlineNames[fv.Fn.Name()] = true
+				defer func() { v.inlineNames[fv.Fn.Name()] = was }()
+				return fr.callFn(st, site, fv.Fn, []Value{v.F.I64(0), args[0]}, fv.Bindings)
+			}
+		}
+	}
 	if r, ok := fr.intrinsic(st, site, full, fn, args); ok {
 		if fr.anchorsOn() && fn.Pkg != nil && fn.Pkg.Pkg.Path() == "math/big" {
 			// modelled math/big calls are visible to cut anchors like any other call
@@ -234,7 +252,11 @@ func (fr *Frame) inline(st *State, fn *ssa.Function, args []Value, bindings []Va
 	}
 	v.hasDefersCheck(fn)
 	if tc := fr.topContract(); tc != nil && tc.Inner != nil {
-		if loops := tc.Inner[fn.Name()]; loops != nil {
+		loops := tc.Inner[fn.Name()]
+		if loops == nil && fn.Parent() != nil {
+			loops = tc.Inner["*"] // "inner *": the loops of whichever closure is inlined (one per variant in practice)
+		}
+		if loops != nil {
 			// the contract annotates the loops of this inlined function
 			top := fr
 			for top.caller != nil {
